@@ -1,5 +1,6 @@
 import SecsModel.Proofs.HsmsWedge
 import SecsModel.Props.C04
+import SecsModel.Gen.HsmsGuards
 /-!
 # C09 — No peer behaviour wedges the endpoint: link loss ends in a clean, reusable state
 
@@ -82,6 +83,25 @@ theorem blocking_read_wedges :
     ∃ s, run .blockingRead St.init [.connect, .chunk cut7, .prx true, .prx true, .prx true, .prx true, .close, .tcp] = some s
       ∧ s.prx = .blockedRead ∧ s.tcp = .sepWait ∧ wedged .blockingRead s = true := by
   refine ⟨_, rfl, ?_⟩; decide +kernel
+
+/-! ## selects again -/
+
+/-- the active entity's Select procedure, as far as "selects again" needs it: does a connect start it?  `guardIsActiveOnly`: the condition
+in `_on_state_connect` is `self._settings.is_active` and nothing else; `earlierAlive`: a Select thread of an earlier connection is still
+waiting for its T6 -/
+def selectStarts (guardIsActiveOnly active earlierAlive : Bool) : Bool :=
+  if guardIsActiveOnly then active else active && !earlierAlive
+
+/-- **Every connect of an active endpoint starts the Select procedure** — also when the Select transaction of the previous connection is
+still open (link lost before the Select.rsp, reconnect before T6): the condition extracted from `HsmsProtocol._on_state_connect` is
+exactly `self._settings.is_active`.  (`Model.Wedge`'s `connect` step has no "select thread alive" memory for this reason.) -/
+theorem select_on_every_connect :
+    Gen.HsmsGuards.selectGuard = "self._settings.is_active"
+    ∧ ∀ earlierAlive, selectStarts (Gen.HsmsGuards.selectGuard == "self._settings.is_active") true earlierAlive = true := by
+  decide
+
+/-- the hypothesis is not idle: with a guard that also looks at an earlier Select thread, a reconnect inside T6 starts nothing -/
+example : selectStarts false true true = false := by decide
 
 /-! ## no stale bytes -/
 
